@@ -6,7 +6,7 @@ Line protocol for C01 (material bookkeeping of streams).  One op per line; the a
 or `err=<class>`; after an error every further line of the case is answered `dead`.
 
   pkg <id,id,...>                         declare the next property package (chemical ids in package order)
-  new <pkg> S <phase> <v,v,...>           single-phase stream, dense flows in package order
+  new <pkg> S <phase> <v,v,...> [o<perm>] single-phase stream, dense flows in package order (o…: entry order, ignored)
   new <pkg> M <phases> <v,..;v,..;...>    multi-phase stream, one row per listed phase
   mix <r> <i,j,...|->                     r.mix_from([...], energy_balance=False)
   sum <pkg> <i,j,...|->                   Stream.sum([...], thermo=pkg, energy_balance=False)  (new stream)
@@ -82,7 +82,11 @@ def copyOp (st : St) (d s ids rm ex ph : String) : St × String :=
 def step (st : St) (line : String) : St × String :=
   if st.dead then (st, "dead") else
   let w := st.w
-  match splitWs line with
+  -- `new … o<perm>`: the order in which the flows were entered on the real stream; irrelevant to the model
+  let toks := match splitWs line with
+    | ["new", a, b, c, d, o] => if o.startsWith "o" && (parseNats (o.drop 1).toString).isSome then ["new", a, b, c, d] else ["new", a, b, c, d, o]
+    | l => l
+  match toks with
   | ["pkg", ids] =>
     match parseNats ids with
     | some l => if l.eraseDups.length == l.length then ({ st with w := { w with pkgs := w.pkgs ++ [l] } }, "ok") else bad st
